@@ -11,7 +11,7 @@ import (
 )
 
 func init() {
-	register(&Rule{ID: "D-DISPATCH", Props: []string{"C01", "C17", "C02", "C05", "C20", "C09", "C06", "C19", "C18", "C16"}, Floor: 100,
+	register(&Rule{ID: "D-DISPATCH", Props: []string{"C01", "C17", "C02", "C05", "C20", "C09", "C06", "C19", "C18", "C16", "C10", "C12", "C13"}, Floor: 100,
 		Doc: "The evaluator's dispatcher, by path enumeration once per node type the parser builds (thin wrappers around the recursive evaluation inlined, helpers named by what they are, any source form): every node type has a case; a node implemented by a helper evaluates its children once each, in declaration order, against the enclosing current value and scope, and returns exactly the result of the one helper that implements it (negated only for !=), with no path that bypasses the helper; the current-node variant of a node calls the same helper with the current value in place of the evaluated child; pipe evaluates its right operand against the left result; && and || return one of their operands and ! the negated truth of its operand, all through the one truth predicate; literals return the stored value, @ the current value, $ the root; a variable is looked up in the scope and is an undefined-variable error when absent; let evaluates its bindings in the outer scope and only its body in the one child scope; no other scope is ever created or substituted.",
 		Run: ruleDDispatch})
 }
@@ -222,6 +222,22 @@ func ruleDDispatch(p *Program, r *Reporter) {
 					}
 				}
 			}
+			for _, c := range pf.Calls {
+				// a helper that receives unevaluated children must receive a value to evaluate them against
+				raw, val := false, false
+				for _, a := range c.Args {
+					if strings.HasPrefix(a, "node.") && nodeValuedArg(p, n, a) {
+						raw = true
+					}
+					if a == "@" || strings.HasPrefix(a, "$") {
+						val = true
+					}
+				}
+				if raw && !val && !ctxBad {
+					r.Bad(c.ev.Pos, key+" current value for "+c.Fn.Name(), "the helper receives unevaluated children but neither the current value nor an evaluated child: it can only evaluate them against something else (the root, nothing)")
+					ctxBad = true
+				}
+			}
 			if len(pf.Pushes) > 0 && n != "DefineVariables" && !ctxBad {
 				r.Bad(pf.Pushes[0].Pos, key+" creates a scope", "only let creates a scope")
 				ctxBad = true
@@ -291,6 +307,13 @@ func ruleDDispatch(p *Program, r *Reporter) {
 		}
 		if n == "DefineVariables" {
 			bad := ""
+			var letPaths []pathFacts
+			for _, pf := range succ {
+				if pf.Err == "" {
+					letPaths = append(letPaths, pf) // a path that only hands on a helper's error is not a success
+				}
+			}
+			succ = letPaths
 			for _, pf := range succ {
 				if len(pf.Pushes) != 1 {
 					bad = "a let evaluates its body without creating exactly one child scope"
@@ -309,6 +332,22 @@ func ruleDDispatch(p *Program, r *Reporter) {
 				for _, ev := range pf.Evals[:len(pf.Evals)-1] {
 					if !strings.HasPrefix(ev.Field, "Variables") {
 						bad = "a let evaluates " + ev.Field + " before its body"
+					}
+				}
+				// bindings evaluated by a helper: it must receive the binding expressions, the current value and the outer scope
+				for _, c := range pf.Calls {
+					hasVars := false
+					for _, a := range c.Args {
+						if strings.HasPrefix(a, "node.Variables") {
+							hasVars = true
+						}
+					}
+					if hasVars {
+						for i := 0; i < c.Fn.Signature.Params().Len() && i < len(c.Args); i++ {
+							if isAnyType(c.Fn.Signature.Params().At(i).Type()) && c.Args[i] != "@" {
+								bad = "the bindings of a let are evaluated against " + c.Args[i] + ", not the enclosing current value"
+							}
+						}
 					}
 				}
 			}
@@ -519,6 +558,42 @@ func sharesHelper(a, b string) bool {
 		if (a == p[0] && b == p[1]) || (a == p[1] && b == p[0]) {
 			return true
 		}
+	}
+	return false
+}
+
+
+// nodeValuedArg: the rendered argument "node.F" names a field of node type n that holds nodes (a node, or an array, slice or
+// map of nodes), as opposed to a plain value such as an index or a name.
+func nodeValuedArg(p *Program, n, arg string) bool {
+	st := nodeStruct(p, n)
+	if st == nil {
+		return false
+	}
+	f := strings.TrimPrefix(arg, "node.")
+	if i := strings.IndexAny(f, "[."); i >= 0 {
+		f = f[:i]
+	}
+	for i := 0; i < st.NumFields(); i++ {
+		if st.Field(i).Name() != f {
+			continue
+		}
+		t := st.Field(i).Type()
+		for {
+			switch u := t.Underlying().(type) {
+			case *types.Array:
+				t = u.Elem()
+				continue
+			case *types.Slice:
+				t = u.Elem()
+				continue
+			case *types.Map:
+				t = u.Elem()
+				continue
+			}
+			break
+		}
+		return isNodeType(t)
 	}
 	return false
 }
